@@ -179,11 +179,12 @@ def NumFmt.type : NumFmt → UInt8
   | .lfd => 100
   | .ff => 102 | .f => 102
 
-/-- length of the numeric word: up to the string end, white space, ')' , ']' or "..." -/
+/-- length of the numeric word: up to the string end, white space, ')' , ']', '%' (a comment;
+    fix C11-08) or "..." -/
 def numWordLen : Bytes → Nat
   | [] => 0
   | c :: r =>
-    if isspace c || c = 41 || c = 93 || startsWith (c :: r) [46, 46, 46] then 0
+    if isspace c || c = 41 || c = 93 || c = 37 || startsWith (c :: r) [46, 46, 46] then 0
     else numWordLen r + 1
 
 /-- `scanf_fmtstr(src, &type)`: first format that matches exactly the numeric word -/
